@@ -38,16 +38,19 @@ fn fmt_reports(inc: &mut Vec<(usize, u32, String)>, fl: &mut Vec<(u32, String)>)
         fl.iter().map(|(q, v)| format!("{}:{}", q, v)).collect::<Vec<_>>().join(","))
 }
 
-/// HamletAggregator over `qs` (ids = positions in `ids`), template built as engine/mod.rs builds it:
-/// add_sequence(types) then add_kleene(type, position of the step).
+/// HamletAggregator over `qs` (ids = positions in `ids`), template built as the repository builds it
+/// (engine/mod.rs for one query, the unit tests of aggregator.rs/template.rs for several):
+/// add_sequence(types), then add_kleene(type, template state of that step).
 fn run_hamlet(qs: &[Query], ids: &[u32], shared: bool, evs: &[usize]) -> String {
     let mut b = TemplateBuilder::new();
+    let mut base = 0usize; // add_sequence allocates len+1 fresh states per query
     for (q, &id) in qs.iter().zip(ids) {
         let names: Vec<&str> = q.steps.iter().map(|(t, _)| TYPE_NAMES[*t]).collect();
         b.add_sequence(id, &names);
         for (pos, (t, k)) in q.steps.iter().enumerate() {
-            if *k { b.add_kleene(id, TYPE_NAMES[*t], pos as u16); }
+            if *k { b.add_kleene(id, TYPE_NAMES[*t], (base + pos) as u16); }
         }
+        base += q.steps.len() + 1;
     }
     let template = b.build();
     let mut optimizer = OptimizerConfig::default();
